@@ -367,6 +367,16 @@ def run_case(case):
             ctx = dict(strategy=strat, workers=workers, delays=scheme, slow_cache_writer=slow["on"], options=desc)
             if slow["on"]:
                 buckets["slow_cache_writer"] = buckets.get("slow_cache_writer", 0) + 1
+            if rng.random() < 0.3:
+                # a failed call first (a mistyped strategy, with a flux map the caller happened to pass): whatever the driver set up for
+                # it must not leak into the next, well-formed call
+                try:
+                    iface.run_bldfm_parallel(cfg, max_workers=workers, parallel_over=strat + "s" if strat != "towers" else "tower",
+                                             surface_flux=rng.random((cfg.domain.ny, cfg.domain.nx)) + 5.0)
+                    counters["mistyped_strategy_accepted"] = counters.get("mistyped_strategy_accepted", 0) + 1
+                except Exception:  # noqa
+                    counters["failed_calls_before_a_good_one"] = counters.get("failed_calls_before_a_good_one", 0) + 1
+                ctx["history"] = "after a call that raised (unknown strategy, surface_flux given)"
             try:
                 res = iface.run_bldfm_parallel(cfg, max_workers=workers, parallel_over=strat)
             except BaseException as e:  # noqa
